@@ -275,44 +275,27 @@ var (
 	mNumeral = regexp.MustCompile(`^-?(\.[0-9]+|[0-9]+(\.[0-9]*)?)$`)
 )
 
-// dotExpect is the string Unmarshal delivers for an ID, key or value s given to
-// Marshal, by the documentation of Marshal ("quoted if needed"), quoteID ("If
-// s is already quoted ... the original string is returned") and unquoteID
-// (quoted HTML-like strings are not unquoted).
-func dotExpect(s string) string {
-	if len(s) >= 2 && s[0] == '"' && s[len(s)-1] == '"' {
-		if u, err := strconv.Unquote(s); err == nil {
-			// already a quoted DOT ID: emitted as is, unquoted on input
-			if len(s) >= 4 && strings.HasPrefix(s, `"<`) && strings.HasSuffix(s, `>"`) {
-				return s
-			}
-			return u
-		}
-	}
-	return s
+// lexRunesOK: the characters of s can appear inside a quoted or HTML string
+// token of formats/dot's grammar (dot.bnf): valid UTF-8 without NUL and without
+// U+FFFD.
+func lexRunesOK(s string) bool {
+	return utf8.ValidString(s) && !strings.ContainsRune(s, 0) && !strings.ContainsRune(s, utf8.RuneError)
 }
 
-// alreadyID reports whether s belongs to the "emitted verbatim" class.
-func alreadyID(s string) bool {
+func htmlShaped(s string) bool { return len(s) >= 2 && s[0] == '<' && s[len(s)-1] == '>' }
+
+func quotedShaped(s string) bool {
 	if len(s) >= 2 && s[0] == '"' && s[len(s)-1] == '"' {
-		if _, err := strconv.Unquote(s); err == nil {
-			return true
-		}
+		_, err := strconv.Unquote(s)
+		return err == nil
 	}
-	return len(s) >= 2 && s[0] == '<' && s[len(s)-1] == '>'
+	return false
 }
 
-// verbatimOK reports whether a string of the "emitted verbatim" class is a
-// well-formed DOT ID by the grammar of formats/dot (the caller of Marshal is
-// responsible for that): no NUL, no U+FFFD or invalid UTF-8; HTML strings
-// balanced with at most one level of nested tags.
-func verbatimOK(s string) bool {
-	if !utf8.ValidString(s) || strings.ContainsRune(s, 0) || strings.ContainsRune(s, utf8.RuneError) {
-		return false
-	}
-	if s[0] == '"' {
-		return true
-	}
+// htmlBalanced: the angle brackets inside the outer pair are balanced with at
+// most one level of nested tags (dot.bnf: _html_lit : '<' { _html_chars |
+// _html_tag } '>' ; _html_tag : '<' _html_chars '>').
+func htmlBalanced(s string) bool {
 	depth := 0
 	for _, r := range s[1 : len(s)-1] {
 		switch r {
@@ -330,6 +313,58 @@ func verbatimOK(s string) bool {
 	}
 	return depth == 0
 }
+
+// htmlOK / quotedOK: s is an HTML string / a double-quoted string of the DOT
+// language as defined by formats/dot, i.e. an ID that Marshal may emit verbatim
+// ("If s is already quoted ... the original string is returned").
+func htmlOK(s string) bool   { return htmlShaped(s) && lexRunesOK(s) && htmlBalanced(s) }
+func quotedOK(s string) bool { return quotedShaped(s) && lexRunesOK(s) }
+
+// Strings that only look like an ID are not IDs, so "Attributes and IDs are
+// quoted if needed during marshalling" applies to them and they must come back
+// unchanged. Two kinds, each a recorded finding of its own on the unchanged tree
+// (isID/isHTMLID accept them, Marshal emits them verbatim, Unmarshal rejects the
+// output):
+//   - htmlMalformed: <...> shape with unbalanced or too deeply nested brackets;
+//   - verbatimBadRune: "..." or <...> shape holding a raw NUL, U+FFFD or an
+//     invalid UTF-8 byte.
+func htmlMalformed(s string) bool { return htmlShaped(s) && lexRunesOK(s) && !htmlBalanced(s) }
+func verbatimBadRune(s string) bool {
+	return (htmlShaped(s) || quotedShaped(s)) && !lexRunesOK(s)
+}
+
+// ambiguousQuotedHTML: a well-formed quoted string whose content has the <...>
+// shape without being an HTML string, e.g. the five characters "<<>". unquoteID
+// documents that quoted HTML-like strings are not unquoted (so that "<b>" does
+// not turn into the HTML string <b> in the next generation); for content that is
+// no HTML string either decoding, with or without the quotes, is the same DOT ID.
+// Such strings are not generated and cases holding one are not judged.
+func ambiguousQuotedHTML(s string) bool {
+	if !quotedOK(s) {
+		return false
+	}
+	u, _ := strconv.Unquote(s)
+	return htmlShaped(u) && !htmlOK(u)
+}
+
+// dotExpect is the string Unmarshal delivers for an ID, key or value s given to
+// Marshal, by the documentation of Marshal ("quoted if needed"), quoteID ("If
+// s is already quoted ... the original string is returned") and unquoteID
+// (quoted HTML-like strings are not unquoted).
+func dotExpect(s string) string {
+	if quotedOK(s) {
+		// already a quoted DOT ID: emitted as is, unquoted on input
+		if len(s) >= 4 && strings.HasPrefix(s, `"<`) && strings.HasSuffix(s, `>"`) {
+			return s
+		}
+		u, _ := strconv.Unquote(s)
+		return u
+	}
+	return s
+}
+
+// alreadyID reports whether s belongs to the "emitted verbatim" class.
+func alreadyID(s string) bool { return quotedOK(s) || htmlOK(s) }
 
 // needsQuoting: s is neither an identifier nor a numeral (or is a keyword).
 func needsQuoting(s string) bool {
@@ -420,6 +455,7 @@ type dotBuilder struct {
 	c         dotCase
 	objs      []graph.Node // one object per case node, shared by all (sub)graphs
 	exp       dotSummary
+	altEdges  []string // exp.Edges with every compass-named port read as a compass
 	expNode   map[int][]encoding.Attribute
 	gA        []encoding.Attribute
 	nA        []encoding.Attribute
@@ -526,13 +562,48 @@ func (b *dotBuilder) build(sub dotSub) recGraph {
 			gg.SetLine(&recLine{f: f, t: t, uid: gg.UndirectedGraph.NewLine(f, t).ID(), ports: p, attrList: toAttrs(e.Attrs)})
 		}
 		ep := ports{dotExpect(p.fp), p.fc, dotExpect(p.tp), p.tc}
+		alt := ep
+		if p.fc == "" && isCompass(p.fp) {
+			alt.fp, alt.fc = "", p.fp
+		}
+		if p.tc == "" && isCompass(p.tp) {
+			alt.tp, alt.tc = "", p.tp
+		}
 		for _, fi := range fs {
 			for _, ti := range ts {
 				b.exp.Edges = append(b.exp.Edges, edgeString(c.Directed, c.nodeExpectID(fi), c.nodeExpectID(ti), ep, expAttrs(e.Attrs)))
+				b.altEdges = append(b.altEdges, edgeString(c.Directed, c.nodeExpectID(fi), c.nodeExpectID(ti), alt, expAttrs(e.Attrs)))
 			}
 		}
 	}
 	return g
+}
+
+// expCompassConfused is the expected summary with every port that is named
+// like a compass point and has no compass read as that compass point.
+func (b *dotBuilder) expCompassConfused() dotSummary {
+	alt := b.exp
+	alt.Edges = append([]string(nil), b.altEdges...)
+	sort.Strings(alt.Edges)
+	return alt
+}
+
+type portRef struct{ port, comp string }
+
+// edgePorts lists the (port, compass) pairs of all edge ends of the case.
+func (c dotCase) edgePorts() []portRef {
+	var out []portRef
+	var walk func(s dotSub)
+	walk = func(s dotSub) {
+		for _, e := range s.Edges {
+			out = append(out, portRef{string(e.FPort), e.FComp}, portRef{string(e.TPort), e.TComp})
+		}
+		for _, ss := range s.Subs {
+			walk(ss)
+		}
+	}
+	walk(c.Top)
+	return out
 }
 
 func (c dotCase) hasSubs() bool { return len(c.Top.Subs) > 0 || len(c.SubNodes) > 0 }
@@ -553,8 +624,12 @@ func (c dotCase) strings() []string {
 		out = append(out, string(sn.Name))
 	}
 	var walk func(s dotSub)
+	top := true
 	walk = func(s dotSub) {
-		out = append(out, string(s.Name))
+		if !top || len(c.NameParam) == 0 {
+			out = append(out, string(s.Name)) // the name argument of Marshal overrides the top-level DOTID
+		}
+		top = false
 		for _, as := range [][]dotAttr{s.GAttrs, s.NAttrs, s.EAttrs} {
 			for _, a := range as {
 				out = append(out, string(a.K), string(a.V))
@@ -598,7 +673,7 @@ func checkDOT(c dotCase) *vk.Failure {
 	sort.Strings(b.exp.Nodes)
 	sort.Strings(b.exp.Edges)
 
-	quoting, verbatim, ufffd := false, false, false
+	quoting, verbatim, ufffd, malformed, badRune := false, false, false, false, false
 	for _, s := range c.strings() {
 		if alreadyID(s) {
 			verbatim = true
@@ -608,15 +683,29 @@ func checkDOT(c dotCase) *vk.Failure {
 		if strings.Contains(s, "\uFFFD") { // the encoded rune U+FFFD, not an invalid byte
 			ufffd = true
 		}
+		malformed = malformed || htmlMalformed(s)
+		badRune = badRune || verbatimBadRune(s)
 	}
 	for _, s := range c.strings() {
-		if alreadyID(s) && !verbatimOK(s) {
-			vk.Class("rt dot excluded: a string has the shape of a quoted/HTML ID but is not a well-formed one")
+		if ambiguousQuotedHTML(s) {
+			vk.Class("rt dot not judged: a quoted string holds <...> content that is no HTML string (decoding with or without the quotes is acceptable)")
 			return nil
+		}
+	}
+	portLikeCompass := false
+	for _, p := range c.edgePorts() {
+		if p.comp == "" && isCompass(p.port) {
+			portLikeCompass = true
 		}
 	}
 	kind := map[bool]string{false: "simple", true: "multi"}[c.Multi] + map[bool]string{false: " undirected", true: " directed"}[c.Directed]
 	vk.Class(fmt.Sprintf("rt dot %s quoting=%v verbatim-ids=%v subgraphs=%v subgraph-vertices=%v", kind, quoting, verbatim, len(c.Top.Subs) > 0, len(c.SubNodes) > 0))
+	if malformed || badRune {
+		vk.Class(fmt.Sprintf("rt dot has a string of ID shape that is not an ID: html-malformed=%v raw-nul-fffd-or-invalid-utf8=%v", malformed, badRune))
+	}
+	if portLikeCompass {
+		vk.Class("rt dot has a port named like a compass point without a compass")
+	}
 	if quoting || verbatim || c.hasSubs() {
 		vk.NonTrivial("dot", fmt.Sprintf("%+v", c))
 	}
@@ -633,24 +722,53 @@ func checkDOT(c dotCase) *vk.Failure {
 	if r := vk.Call(func() { g2, err = unmarshalRec(b1, c.Directed, c.Multi) }); r.Outcome != vk.Returned {
 		return vk.Failf("unmarshal-panics", "Unmarshal(Marshal(g)): %v %s\n%s", r.Outcome, r.Text, b1)
 	}
+	// Keying only: did Marshal write a string that merely looks like an ID
+	// without quoting it? (The oracle is the round trip itself.)
+	unquoted := func(pred func(string) bool) bool {
+		for _, s := range c.strings() {
+			if pred(s) && bytes.Contains(b1, []byte(s)) && !bytes.Contains(b1, []byte(strings.ReplaceAll(strconv.Quote(s), "\uFFFD", `\ufffd`))) {
+				return true
+			}
+		}
+		return false
+	}
+	malformed = malformed && unquoted(htmlMalformed)
+	badRune = badRune && unquoted(verbatimBadRune)
 	if err != nil {
 		key := "unmarshal-rejects-marshal-output"
-		if ufffd {
-			key += "-ufffd"
-		}
-		// Recorded finding, identified by the token the lexer chokes on: an HTML
-		// string with an empty nested tag (<<>>, <a<>b>), which formats/dot's
-		// grammar (dot.bnf: _html_tag : '<' { _html_char } '>') allows but the
-		// generated lexer rejects.
-		if strings.Contains(err.Error(), "unknown/invalid token \"<") && strings.Contains(err.Error(), "<>\"") {
+		switch {
+		case malformed:
+			// Recorded finding: a string of <...> shape that is not an HTML string
+			// (unbalanced or too deeply nested brackets) is emitted verbatim.
+			key += "-html-malformed"
+		case badRune:
+			// Recorded finding: a string of "..." or <...> shape holding a raw NUL,
+			// U+FFFD or invalid UTF-8 is emitted verbatim.
+			key += "-verbatim-bad-rune"
+		case strings.Contains(err.Error(), "unknown/invalid token \"<") && strings.Contains(err.Error(), "<>\""):
+			// Recorded finding, identified by the token the lexer chokes on: an HTML
+			// string with an empty nested tag (<<>>, <a<>b>), which formats/dot's
+			// grammar (dot.bnf: _html_tag : '<' { _html_char } '>') allows but the
+			// generated lexer rejects.
 			key += "-html-empty-tag"
+		case ufffd:
+			key += "-ufffd"
 		}
 		return vk.Failf(key, "Unmarshal(Marshal(g)): %v\n%s", err, b1)
 	}
 	got := summarize(g2, c.Directed)
 	if got.String() != b.exp.String() {
 		key := "roundtrip-differs"
-		if b.maxPrints >= 2 {
+		if portLikeCompass && got.String() == b.expCompassConfused().String() {
+			// Recorded finding: exactly the ports named like a compass point and
+			// written without a compass came back as compass values
+			key = "roundtrip-differs-port-named-like-compass"
+		} else if malformed {
+			// Recorded finding (same defect as unmarshal-rejects-marshal-output-html-malformed):
+			// the unquoted string swallows the text up to a later '>' and the
+			// output parses as a different graph
+			key = "roundtrip-differs-html-malformed"
+		} else if b.maxPrints >= 2 {
 			// a subgraph used as an edge end point is printed once per use; the
 			// decoder is known to see its nodes only the first time
 			key = "roundtrip-differs-subgraph-vertex-reused"
@@ -698,6 +816,11 @@ var dotNearNumerals = []string{"1a", "-", ".", "-.", "1.2.3", "--1", "1e5", "+1"
 var dotPieces = []string{" ", "\"", "\\", "\n", "\t", "\r", "<", ">", "-", ".", ":", ";", ",", "=", "[", "]", "{", "}", "/", "*", "#", "+", "&", "'", "%", "a", "b", "N", "0", "1", "_", "\x00", "\x7f", "\x80", "\xff", "\xc3", "\xa9", "é", "λ", "日", "😀", "\u00a0", "\u0085", "\u2028", "\ufeff", "\ufffd", "--", "->", "//", "/*", "*/", "\\\"", "\\n", "\\l", "\\\n", "node", "\\\\"}
 var dotCommentLike = []string{"//x", "/*x*/", "#x", "a--b", "a->b", "a -- b", "a;b", "a,b", "a=b", "[a]", "{a}", "a:b", "a:n"}
 var dotHTML = []string{"<b>", "<>", "<a b>", "<<b>x</b>>", "<a<b>c<d>>", "<é>", "<\">", "<a\nb>", "< >", "<-->", "<&amp;>"}
+
+// strings with the shape of a quoted or HTML ID that are not IDs of the DOT
+// language (unbalanced or too deeply nested angle brackets; raw NUL, U+FFFD or
+// invalid UTF-8 inside the delimiters)
+var dotNotQuiteIDs = []string{"<<>", "<a>b>", "<>>", "< <b>", "<<<a>>>", "<<a<b>>>", "<a<b>", "<>a>", "<a\x00b>", "<\ufffd>", "<\xff>", "\"a\x00b\"", "\"\ufffd\"", "\"a\xffb\"", "<<\x00>"}
 var dotCompass = []string{"", "", "n", "ne", "e", "se", "s", "sw", "w", "nw", "c", "_"}
 
 func drawRawHostile(t *rapid.T, label string) string {
@@ -724,8 +847,8 @@ func drawRawHostile(t *rapid.T, label string) string {
 // drawDOTString draws a string for an ID, key, value, port or name.
 func drawDOTString(t *rapid.T, label string, allowEmpty bool) []byte {
 	b := drawDOTString1(t, label, allowEmpty)
-	if s := string(b); alreadyID(s) && !verbatimOK(s) {
-		return append(b, 'x') // no longer of the verbatim shape
+	if ambiguousQuotedHTML(string(b)) {
+		return append(b, 'x') // no longer a quoted string
 	}
 	return b
 }
@@ -739,7 +862,18 @@ func drawDOTString1(t *rapid.T, label string, allowEmpty bool) []byte {
 	if !dotVerbatim {
 		lo = 3
 	}
-	switch max(lo, rapid.IntRange(0, 11).Draw(t, label+"_kind")) {
+	switch max(lo, rapid.IntRange(0, 12).Draw(t, label+"_kind")) {
+	case 12: // the shape of an ID without being one: must be quoted like any other string
+		if !dotVerbatim {
+			return []byte(drawRawHostile(t, label))
+		}
+		if rapid.IntRange(0, 2).Draw(t, label+"_notid_word") == 0 {
+			return []byte(rapid.SampledFrom(dotNotQuiteIDs).Draw(t, label+"_notid"))
+		}
+		if rapid.Bool().Draw(t, label+"_notid_html") {
+			return []byte("<" + strings.Join(rapid.SliceOfN(rapid.SampledFrom([]string{"<", ">", "<", ">", "a", " ", "b>", "<i", "\x00", "\ufffd", "\xff", "\""}), 0, 5).Draw(t, label+"_notid_h"), "") + ">")
+		}
+		return []byte(`"` + strings.Join(rapid.SliceOfN(rapid.SampledFrom([]string{"a", " ", "\x00", "\ufffd", "\xff", "<", ">", "é"}), 1, 4).Draw(t, label+"_notid_q"), "") + `"`)
 	case 0, 3:
 		if allowEmpty {
 			return nil
@@ -797,12 +931,13 @@ func drawPort(t *rapid.T, label string) ([]byte, string) {
 	if rapid.Bool().Draw(t, label+"_named") {
 		port = drawDOTString(t, label, false)
 	}
-	comp := rapid.SampledFrom(dotCompass).Draw(t, label+"_compass")
-	// ":n" alone is a compass point in the DOT language; a port *named* like a
-	// compass point is only representable together with an explicit compass.
-	if comp == "" && isCompass(string(port)) {
-		comp = "_"
+	if port != nil && rapid.IntRange(0, 5).Draw(t, label+"_likecompass") == 0 {
+		// a port *named* like a compass point: ":n" alone is a compass point in
+		// DOT source, so the encoder has to write the name as a quoted ID, which
+		// the decoder keeps apart from the compass points
+		port = []byte(rapid.SampledFrom(dotCompass[2:]).Draw(t, label+"_compassname"))
 	}
+	comp := rapid.SampledFrom(dotCompass).Draw(t, label+"_compass")
 	return port, comp
 }
 
@@ -974,14 +1109,17 @@ func TestDOTRoundTrip(t *testing.T) {
 // catches quoting mistakes that need one particular spelling
 func TestDOTWords(t *testing.T) {
 	var words []string
-	for _, l := range [][]string{dotKeywords, dotNumerals, dotNearNumerals, dotCommentLike, dotHTML, dotPieces} {
+	for _, l := range [][]string{dotKeywords, dotNumerals, dotNearNumerals, dotCommentLike, dotHTML, dotPieces, dotCompass[2:]} {
 		words = append(words, l...)
 	}
 	for _, w := range append([]string(nil), words...) {
 		if utf8.ValidString(w) && !strings.ContainsRune(w, 0) && !strings.ContainsAny(w, "\\\n\r") {
-			words = append(words, `"`+strings.ReplaceAll(w, `"`, `\"`)+`"`)
+			if q := `"` + strings.ReplaceAll(w, `"`, `\"`) + `"`; !ambiguousQuotedHTML(q) {
+				words = append(words, q)
+			}
 		}
 	}
+	words = append(words, dotNotQuiteIDs...)
 	var cases []dotCase
 	for _, w := range words {
 		for pos := 0; pos < 6; pos++ {
@@ -995,9 +1133,6 @@ func TestDOTWords(t *testing.T) {
 			case 1:
 				n0.Attrs = []dotAttr{{K: []byte(w), V: []byte("v")}, {K: []byte("k"), V: []byte(w)}}
 			case 2:
-				if isCompass(w) {
-					e.FComp = "_"
-				}
 				e.FPort, e.TPort, e.TComp = []byte(w), []byte(w), "sw"
 			case 3:
 				c.Top.Name = []byte(w)
